@@ -67,6 +67,9 @@ claimed['C20']=dict(engine='sqlskeleton',level='exploration',technique='exhausti
 claimed['C17']=dict(engine='cursorwalk',level='model_checking',technique='explicit exploration of the cursor-token graph of the real pagination library over an in-memory SQL table (all collection sizes x page sizes x orders x filters); exhaustive token round trips for every filter expression to depth 2',design='§7-C17',
    text='bunpaginate.UsingColumn / UsingOffset are walked over collections of 0..8 items (ids dense and with gaps) x page sizes 1..9 x both orders x with/without a filter: following next until hasMore=false yields the (filtered) collection exactly once in order, previous of page k+1 yields page k, every token decodes to the same query. For the store listings (transactions, accounts, logs) every filter expression to depth 2 over the accepted keys, PIT on/off: the cursor the server hands out decodes and issues exactly the same SQL, directly and through GET ?cursor=.',
    note='minidb (a 150-line SQL subset executor) stands in for PostgreSQL for the single-table queries of the library walk; store listings are compared by emitted SQL text, not executed (no PostgreSQL in the sandbox).')
+claimed['C04']=dict(engine='pgmini',level='model_checking',technique='explicit-state breadth-first exploration of log histories, executing the working tree\'s SQL schema (PL/pgSQL triggers) and the Go store\'s SQL in an interpreter; every state compared with an independent fold of the log',design='§7-C04, §5',
+   text='Every history of <=4 (thorough 5) log entries over 16 shapes (transactions with past / future / offset timestamps, self-transfers, multi-posting, reverts, metadata set/delete on accounts and transactions, script-written account metadata) on two ledgers sharing one bucket is inserted through the real Store.InsertLogs into pgmini, which interprets 0-init-schema.sql as it is in the working tree; in every state the moves / transactions tables (running and effective-dated volumes, conservation, effective dates, reverted_at) and the Go read methods (balance, transaction, by reference, last transaction / log, logs listing, account metadata, counts, v1-style listings) equal a fold of that ledger\'s own log; plus every read method x option combination is checked for a ledger predicate.',
+   note='Decided relative to pgmini\'s reading of PostgreSQL 15 semantics (no PostgreSQL server exists in the sandbox; validated_against_postgresql=0). The point-in-time / volumes variants of the list endpoints (LATERAL, CTE, DISTINCT ON, GROUP BY) are NOT executed: for them only the isolation (ledger predicate) clause is decided. Real transaction isolation, jsonb storage normalisation and v1 migrations are out of scope.')
 order=[p['id'] for p in props]
 checks=[]
 for pid in order:
@@ -90,6 +93,7 @@ m={"version":1,"setup_cmd":"./setup.sh",
  "engines":[
   {"name":"nsgen","path":"/verif/xverif/lib/nsgen","serves_properties":["C01","C03","C08","C12"],"kind_free_text":"bounded-exhaustive Numscript program/input enumerator + reference semantics, run against the real compiler and VM"},
   {"name":"gosched","path":"/verif/engine/verifrt + /verif/xverif/cmd/instr + /verif/xverif/lib/explore + /verif/xverif/cmd/vsched","serves_properties":["C02","C05","C06","C07","C10","C11","C15","C16"],"kind_free_text":"controlled cooperative scheduler (verifrt) + source instrumenter + stateless DFS explorer with deviation bounding, sharded over worker processes; runs the real Commander / locker / batcher / job runner"},
+  {"name":"pgmini","path":"/verif/xverif/lib/pgmini","serves_properties":["C04"],"kind_free_text":"interpreter for the SQL / PL-pgSQL subset of the bucket schema with a database/sql driver; the real ledgerstore.Store runs on top of it"},
   {"name":"vcheck","path":"/verif/xverif/cmd/vcheck","serves_properties":["C09","C13","C14","C17","C18","C19","C20"],"kind_free_text":"small exhaustive enumerators driving the real Commander / routers / codecs (memstore, recording backend)"},
  ],
  "checks":checks,"not_applicable":na,
